@@ -18,7 +18,7 @@ EXPLANATION = ("(R1) TrafficTimer table: from `connected`, exactly two interval 
                "goes away, the expiry callback clears it before reporting the interval (so a non-None _timer is always pending), "
                "the reconnect signal drops the current connection, only the pong callback reports traffic, pings carry fresh 4-byte "
                "ids and the timer runs on the configured ping interval. Wall-clock bounds are not decided.")
-TRUSTED_BASE = ["T1", "T2", "T4"]
+TRUSTED_BASE = ["T1", "T2", "T4", "T5"]
 MIN_OBLIGATIONS = 18
 
 MGR = "src/wormhole/_dilation/manager.py"
@@ -235,11 +235,26 @@ def r3(tree, rep):
         build(hp).call_nodes(lambda c: dotted(c.func) == "self.send_pong"), explicit_only=True), site(hp, MGR), key="C16.R3:handle_ping")
 
 
+def r4(tree, rep, tier):
+    """the monitor in the two-party product (engine A5): a connection whose pings go unanswered is asked to close at the second
+    expiry at the latest; the monitor never drops a connection unless a ping went unanswered over an expiry"""
+    from .. import a5common
+    sums = a5common.explorations(tree, tier, rep)
+    a5common.fill_extra(rep, sums)
+    a5common.report(rep, "C16.R4", sums, ("silent-connection-kept", "responsive-connection-dropped"))
+    for envname, s in sums.items():
+        n = s.obl.get("C16:expiry", 0)
+        rep.check("C16.R4", "two-party environment '%s': %d timer expiries on a connection in use were examined" % (envname, n),
+                  n > 0 or not s.exhaustive or bool(s.viol), key="C16.R4:expiries-examined:%s" % envname,
+                  what="the ping timer never expires on a connection in use in the two-party product: the Leader does not monitor its connection")
+
+
 def run(tree, rep, tier):
     prog = Program(tree)
     r1(prog, rep)
     r2(tree, rep)
     r3(tree, rep)
+    r4(tree, rep, tier)
 
 
 MUTANTS = [
